@@ -1261,7 +1261,7 @@ impl fmt::Display for Expr {
                     if *negated { "NOT " } else { "" },
                     if *any { "ANY " } else { "" },
                     pattern,
-                    ch
+                    value::escape_single_quote_string(ch)
                 ),
                 _ => write!(
                     f,
@@ -1286,7 +1286,7 @@ impl fmt::Display for Expr {
                     if *negated { "NOT " } else { "" },
                     if *any { "ANY " } else { "" },
                     pattern,
-                    ch
+                    value::escape_single_quote_string(ch)
                 ),
                 _ => write!(
                     f,
@@ -1322,7 +1322,7 @@ impl fmt::Display for Expr {
                     expr,
                     if *negated { "NOT " } else { "" },
                     pattern,
-                    ch
+                    value::escape_single_quote_string(ch)
                 ),
                 _ => write!(
                     f,
